@@ -2,6 +2,6 @@
 # Build the verification framework offline from files on disk only.
 set -e
 cd "$(dirname "$0")"
-export CARGO_NET_OFFLINE=true CARGO_TARGET_DIR=/verif/target
+export CARGO_NET_OFFLINE=true CARGO_TARGET_DIR="$(pwd)/target"
 if [ -f shim/fsshim.c ]; then cc -O2 -shared -fPIC shim/fsshim.c -o shim/fsshim.so -ldl; fi
 cargo build --offline --manifest-path harness/Cargo.toml --bins 2>&1 | tail -3
